@@ -244,6 +244,9 @@ type half struct {
 	LogReads bool
 	ev       *EventLog
 	dir      byte
+	// ReadErrs: absolute stream position -> error delivered TOGETHER WITH the bytes of the Read
+	// that ends exactly there (n > 0 and err != nil; one-shot).  The positions act as cuts.
+	ReadErrs map[int]error
 }
 
 // EventLog is the global order of the writes of both directions of a Duplex.
@@ -324,11 +327,20 @@ func (h *half) read(b []byte) (int, error) {
 			break
 		}
 	}
+	for p := range h.ReadErrs {
+		if p > h.pos && p-h.pos < n {
+			n = p - h.pos
+		}
+	}
 	copy(b, h.buf[:n])
 	h.buf = h.buf[n:]
 	h.pos += n
 	if h.LogReads {
 		h.ReadLog = append(h.ReadLog, n)
+	}
+	if e, ok := h.ReadErrs[h.pos]; ok {
+		delete(h.ReadErrs, h.pos)
+		return n, e
 	}
 	return n, nil
 }
@@ -430,6 +442,20 @@ func NewDuplex(ab, ba Sched) *Duplex {
 	d.A = &End{in: d.BA, out: d.AB}
 	d.B = &End{in: d.AB, out: d.BA}
 	return d
+}
+
+// SetReadFaults installs chunk boundaries and read-side errors on direction h.
+func (h *half) SetReadFaults(cuts []int, errs map[int]error) {
+	h.mu.Lock()
+	h.Cuts, h.ReadErrs = cuts, errs
+	h.mu.Unlock()
+}
+
+// Pos is the absolute stream position of the next byte to be read.
+func (h *half) Pos() int {
+	h.mu.Lock()
+	defer h.mu.Unlock()
+	return h.pos
 }
 
 // TapAB returns a copy of everything A has written so far.
